@@ -1,4 +1,4 @@
-package main
+package lib
 
 import (
 	"encoding/json"
@@ -6,7 +6,7 @@ import (
 )
 
 // loadReplayInput reads the "input" member of a replay file written by the driver.
-func loadReplayInput[T any](path string) (T, error) {
+func LoadReplayInput[T any](path string) (T, error) {
 	var zero T
 	data, err := os.ReadFile(path)
 	if err != nil {
